@@ -217,4 +217,22 @@ class Check(Property):
                         v.append(f"{tag} [float]: got {r!r}, exact {float(want)!r}, relative error {float(rel):.3g}")
             except Exception as exc:  # noqa: BLE001
                 v.append(f"{tag} [float]: raised {type(exc).__name__}: {exc}")
+            # ndarray magnitudes, converted functionally and in place (float and integer dtype): x * ratio, or a refusal
+            import numpy as np
+            ratio = float(fa / fb) if fb != 0 else None
+            if ratio and 1e-30 < abs(ratio) < 1e30:
+                A_, B_ = pint_uc(uf, c["a"], "float", canonical=True), pint_uc(uf, c["b"], "float", canonical=True)
+                for arr in (np.array([1.0, 7.0, 1500.0]), np.array([1, 7, 1500]), np.array([-999, 2500], dtype=np.int64)):
+                    want_arr = np.asarray(arr, dtype=float) * ratio
+                    for inplace in (False, True):
+                        work = arr.copy()
+                        try:
+                            got = uf.convert(work, A_, B_, inplace=inplace)
+                        except Exception:  # noqa: BLE001
+                            continue          # refusing (casting error for an integer array in place) is acceptable
+                        if not np.allclose(np.asarray(got, dtype=float), want_arr, rtol=1e-12, atol=0):
+                            v.append(f"{tag} [float, {arr.dtype} array, inplace={inplace}]: {arr.tolist()} converts to {np.asarray(got).tolist()}, "
+                                     f"x * ratio is {want_arr.tolist()}")
+                        if not inplace and work.tolist() != arr.tolist():
+                            v.append(f"{tag} [float, {arr.dtype} array]: the functional conversion modified its input")
         return v
